@@ -199,7 +199,8 @@ def replay_file(path):
     logging.disable(logging.CRITICAL)
     rec = json.load(open(path))
     if rec.get('kind') == 'replay-divergence':
-        run = core_real.Run(rec['program']['steps'], rec['plan'], rec['program']['outMissing'], **rec.get('run_kw', {}))
+        run = core_real.Run(rec['program']['steps'], rec['plan'], rec['program']['outMissing'], awt=rec['program'].get('awt', ()),
+                            **rec.get('run_kw', {}))
         for a in rec['actions'][:rec['at']]:
             name, params = core_replay.split_action(a)
             name = core_replay.ALIASES.get(name, name)
@@ -207,6 +208,8 @@ def replay_file(path):
                 run.run_handle()
             elif name == 'EnvCallSoon':
                 run.env('cb' + params[0])
+            elif name == 'EnvComplete':
+                run.complete(params[0], params[1][0], params[1][1])
             elif name == 'EnvSave':
                 run.snapshot()
             elif name == 'EnvRestore':
